@@ -474,5 +474,149 @@ theorem deleteForServerNames_char (hl : ∀ s, lower (lower s) = lower s) (m : M
           · rw [hc]; exact hq
           · rw [hc]; exact clusterAt_of_look hq h2' ▸ (by rw [h3'])
 
+/-! ## what an applied create/update event does -/
+
+theorem hits_mem (skip : Str → Bool) (l : List Str) (k : Str) (hlow : ∀ n ∈ l, lower n = n) :
+    hits lower skip l k = true ↔ k ∈ l ∧ skip k = false := by
+  rw [hits_iff]
+  constructor
+  · rintro ⟨sn, hsn, hs, hk⟩
+    have := hlow sn hsn
+    rw [this] at hk
+    subst hk
+    exact ⟨hsn, hs⟩
+  · rintro ⟨h1, h2⟩
+    exact ⟨k, h1, h2, hlow k h1⟩
+
+theorem heldByOther_congr (m m1 : Mgr) (h : ∀ k, clusterAt m1 k = clusterAt m k) (n c : Str) :
+    m1.heldByOther lower n c = m.heldByOther lower n c := by
+  rw [Bool.eq_iff_iff, heldByOther_iff, heldByOther_iff, h]
+
+theorem check_congr (m m1 : Mgr) (h : ∀ k, clusterAt m1 k = clusterAt m k) (c : Str) (old new : List Str) :
+    checkServerNameConflict lower m1 c old new = checkServerNameConflict lower m c old new := by
+  unfold checkServerNameConflict
+  simp only [heldByOther_congr lower m m1 h]
+
+/-- a passed conflict check: every name of the new list is free or already held by `c` -/
+theorem free_of_noconflict (m : Mgr) (c : Str) (old new : List Str) (hne : old ≠ new)
+    (h : checkServerNameConflict lower m c old new = false) (n : Str) (hn : n ∈ new) :
+    clusterAt m (lower n) = none ∨ clusterAt m (lower n) = some c := by
+  unfold checkServerNameConflict at h
+  rw [if_neg hne] at h
+  have h1 : (new.any fun n => m.heldByOther lower n c) = false := by
+    cases hh : (new.any fun n => m.heldByOther lower n c) with
+    | false => rfl
+    | true => rw [hh] at h; simp at h
+  have h2 : m.heldByOther lower n c = false := by
+    cases hh : m.heldByOther lower n c with
+    | false => rfl
+    | true =>
+      have : (new.any fun n => m.heldByOther lower n c) = true := List.any_eq_true.2 ⟨n, hn, hh⟩
+      rw [this] at h1; cases h1
+  cases hcl : clusterAt m (lower n) with
+  | none => exact Or.inl rfl
+  | some c' =>
+    right
+    by_cases hcc : c' = c
+    · rw [hcc]
+    · have : m.heldByOther lower n c = true := (heldByOther_iff lower m n c).2 ⟨c', hcl, hcc⟩
+      rw [this] at h2; cases h2
+
+/-- the effect of an applied create/update event on a state satisfying the invariant -/
+structure AppliedChar (c : Str) (spec : Spec) (m m' : Mgr) : Prop where
+  ex : ∃ p ci',
+    m'.heap[p]? = some ci' ∧ ci'.cluster = c ∧ ci'.aliases = spec.aliases ∧ ci'.cert = spec.cert ∧ ci'.ca = spec.ca ∧
+    (∀ q, q ≠ p → m'.heap[q]? = m.heap[q]?) ∧
+    m'.stopped = m.stopped ∧ p ∉ m.stopped ∧
+    (∀ k, m'.look k = if k ∈ objNames lower c spec then some p
+                      else if clusterAt m k = some c then none else m.look k) ∧
+    (∀ k ∈ objNames lower c spec, clusterAt m k = none ∨ clusterAt m k = some c) ∧
+    (∀ k q, m.look k = some q → (q = p ↔ clusterAt m k = some c))
+
+theorem getElem?_append_singleton_ne {α : Type} (l : List α) (a : α) (q : Nat) (h : q ≠ l.length) :
+    (l ++ [a])[q]? = l[q]? := by
+  by_cases hq : q < l.length
+  · exact List.getElem?_append_left hq
+  · have h1 : l.length < q := by omega
+    have h2 : l[q]? = none := List.getElem?_eq_none (by omega)
+    have h3 : (l ++ [a])[q]? = none := List.getElem?_eq_none (by simp; omega)
+    rw [h2, h3]
+
+theorem lt_of_getElem?_some {α : Type} (l : List α) (q : Nat) (a : α) (h : l[q]? = some a) : q < l.length := by
+  by_cases hq : q < l.length
+  · exact hq
+  · have : l[q]? = none := List.getElem?_eq_none (by omega)
+    rw [this] at h; cases h
+
+theorem create_char (hl : ∀ s, lower (lower s) = lower s) (m : Mgr) (hI : Inv lower m) (c : Str) (hc : lower c = c)
+    (spec : Spec) (hg : m.get lower c = none)
+    (hchk : checkUpstreamServerNameConflict lower m c spec = false) :
+    ∃ m2, addOrUpdateForServerNames lower
+            { m with heap := m.heap ++ [({ cluster := c, aliases := spec.aliases, cert := spec.cert, ca := spec.ca } : CI)] }
+            [] m.heap.length = some m2 ∧ AppliedChar lower c spec m m2 := by
+  let ci0 : CI := { cluster := c, aliases := spec.aliases, cert := spec.cert, ca := spec.ca }
+  let m1 : Mgr := { m with heap := m.heap ++ [ci0] }
+  have hnone := none_of_get_none lower hI hc hg
+  have hnewlow : ∀ n ∈ objNames lower c spec, lower n = n := objNames_lower lower hl c hc spec
+  have hcl1 : ∀ k, clusterAt m1 k = clusterAt m k := by
+    intro k
+    apply clusterAt_congr
+    · rfl
+    · intro q hq
+      obtain ⟨ci, hci⟩ := hI.wf k q hq
+      have hlt : q < m.heap.length := lt_of_getElem?_some _ _ _ hci
+      show ((m.heap ++ [ci0])[q]?).map _ = _
+      rw [List.getElem?_append_left hlt]
+  have hp : m1.heap[m.heap.length]? = some ci0 := by simp [m1]
+  have hne : ([] : List Str) ≠ loadServerNames lower ci0 := by simp [loadServerNames]
+  have hchk0 : checkServerNameConflict lower m c [] (objNames lower c spec) = false := by
+    unfold checkUpstreamServerNameConflict at hchk
+    rw [hg] at hchk
+    exact hchk
+  have hfree : ∀ k ∈ objNames lower c spec, clusterAt m k = none ∨ clusterAt m k = some c := by
+    intro k hk
+    have := free_of_noconflict lower m c [] (objNames lower c spec) hne hchk0 k hk
+    rwa [hnewlow k hk] at this
+  have hcc : checkServerNameConflict lower m1 ci0.cluster [] (loadServerNames lower ci0) = false := by
+    rw [check_congr lower m m1 hcl1]
+    exact hchk0
+  show ∃ m2, addOrUpdateForServerNames lower m1 [] m.heap.length = some m2 ∧ _
+  unfold addOrUpdateForServerNames
+  rw [hp]
+  simp only
+  rw [if_neg hne, hcc]
+  simp only [Bool.false_eq_true, if_false]
+  refine ⟨_, rfl, ⟨m.heap.length, ci0, ?_, rfl, rfl, rfl, rfl, ?_, ?_, ?_, ?_, hfree, ?_⟩⟩
+  · rw [heap_addNew, heap_delOwned]; exact hp
+  · intro q hq
+    rw [heap_addNew, heap_delOwned]
+    exact getElem?_append_singleton_ne _ _ _ hq
+  · rw [stopped_addNew, stopped_delOwned_false]
+  · intro hs
+    obtain ⟨ci, hci⟩ := hI.swf _ hs
+    have := lt_of_getElem?_some _ _ _ hci
+    omega
+  · intro k
+    rw [look_addNew]
+    have hd : delOwned lower ci0.cluster false (fun o => decide (o ∈ loadServerNames lower ci0)) [] m1 = m1 := rfl
+    rw [hd]
+    have hh : hits lower (fun n => decide (n ∈ ([] : List Str))) (loadServerNames lower ci0) k = true ↔
+        k ∈ objNames lower c spec := by
+      have hnames : loadServerNames lower ci0 = objNames lower c spec := rfl
+      rw [hnames, hits_mem lower _ _ _ hnewlow]
+      simp
+    by_cases hk : k ∈ objNames lower c spec
+    · rw [if_pos (hh.2 hk), if_pos hk]
+    · have : ¬ hits lower (fun n => decide (n ∈ ([] : List Str))) (loadServerNames lower ci0) k = true :=
+        fun h => hk (hh.1 h)
+      rw [if_neg this, if_neg hk, if_neg (hnone k)]
+      rfl
+  · intro k q hq
+    obtain ⟨ci, hci⟩ := hI.wf k q hq
+    have := lt_of_getElem?_some _ _ _ hci
+    constructor
+    · intro h; omega
+    · intro h; exact absurd h (hnone k)
+
 end
 end KG.Lemmas.Names
